@@ -136,7 +136,8 @@ def digests_only(pid, tier, verif_seed, indices):
     from . import pool
     prop = load_prop(pid)
     jobs = [(i, _gen_job(prop, verif_seed, tier, i)) for i in indices]
-    res, _ = pool.run_many(prop, jobs, nworkers=min(8, len(jobs)), keep=lambda k, r: True)
+    nw = int(os.environ.get("VERIF_DIGEST_WORKERS", "8") or 8)
+    res, _ = pool.run_many(prop, jobs, nworkers=max(1, min(nw, len(jobs))), keep=lambda k, r: True)
     out = {}
     for i in indices:
         r = res.get(i)
